@@ -454,6 +454,23 @@ pub fn run_scenario(sc: Arc<Scenario>, out: Arc<Mutex<DriverOut>>) {
     rec::push(RecKind::Driver { what: "end".into() });
     // drop GlobalData arcs inside the execution
     let sg = rec::with(|r| std::mem::take(&mut r.session_global));
+    // rFSM's sessions, global data and executor reference each other (Arc cycles): take them apart, or every
+    // run leaves its documents and data stores behind (a worker reached 4.5 GB in a thorough batch)
+    for b in sg.values() {
+        if let Some(g) = b.downcast_ref::<rufsm::datamodel::GlobalDataArc>() {
+            if let Ok(mut gd) = g.lock() {
+                gd.executor = None;
+                gd.child_sessions.clear();
+                gd.io_processors.clear();
+                gd.delayed_send.clear();
+            }
+        }
+    }
+    {
+        let mut st = ctx.executor.state.lock().unwrap();
+        st.sessions.clear();
+        st.processors.clear();
+    }
     drop(sg);
 }
 
